@@ -28,6 +28,10 @@ pub enum Kind {
     Straddle,
     /// 500 classes x 1000 methods (sections > 16 MiB)
     Giant,
+    /// one class with n sourceFile headers, each followed by a method
+    ManyFiles,
+    /// one method name with n entries on overlapping, non-identical ranges (i+1 ..= i+60)
+    ManyOverlap,
 }
 
 #[derive(Clone, Debug, Serialize, Deserialize)]
@@ -85,10 +89,14 @@ pub fn build(kind: Kind, n: usize) -> (MapFile, Universe) {
         Kind::ManyMatching => {
             let mut items: Vec<Item> = (0..n).map(|i| method("k", "same", &format!("q{i}"), None, OLines::None)).collect();
             items.extend((0..n).map(|i| method("r", &format!("r{}", i % 3), "int", Some((1, 9)), OLines::S(i as u64))));
+            // n entries that tie on (obfuscated name, arguments, start line) and differ only in the original name
+            items.extend((0..n.min(5000)).map(|i| method("t", &format!("t{i}"), "", None, OLines::None)));
             blocks.push(Block { orig: "com.example.Match".into(), obf: "b".into(), items });
             oc.insert("b".into());
             om.insert("k".into());
             om.insert("r".into());
+            om.insert("t".into());
+            ps.insert(String::new());
             for p in positions(n) {
                 ps.insert(format!("q{p}"));
             }
@@ -127,6 +135,28 @@ pub fn build(kind: Kind, n: usize) -> (MapFile, Universe) {
             }
             ps.insert("int".into());
         }
+        Kind::ManyFiles => {
+            let mut items = Vec::new();
+            for i in 0..n {
+                items.push(Item::SourceFile(format!("F{i}.kt")));
+                items.push(method("m", &format!("o{}", i % 5), "", Some((i as u64 + 1, i as u64 + 1)), OLines::S(i as u64 + 100)));
+            }
+            blocks.push(Block { orig: "com.example.Files".into(), obf: "e".into(), items });
+            oc.insert("e".into());
+            om.insert("m".into());
+            for p in positions(n) {
+                ranges.push((p as u64 + 1, p as u64 + 1));
+            }
+        }
+        Kind::ManyOverlap => {
+            let items = (0..n).map(|i| method("v", &format!("o{}", i % 11), "", Some((i as u64 + 1, i as u64 + 60)), OLines::SE(1000 + i as u64, 1059 + i as u64))).collect();
+            blocks.push(Block { orig: "com.example.Overlap".into(), obf: "f".into(), items });
+            oc.insert("f".into());
+            om.insert("v".into());
+            for p in positions(n) {
+                ranges.push((p as u64 + 1, p as u64 + 60));
+            }
+        }
         Kind::Giant => {
             blocks.clear();
             for c in 0..500 {
@@ -149,7 +179,14 @@ pub fn cases(ctx: &Ctx, prop: &str) -> Vec<ScaleCase> {
     let quick: &[usize] = &[256, 257, 4096, 4097];
     let thorough: &[usize] = &[255, 256, 257, 4095, 4096, 4097, 65535, 65536, 65537, 70000];
     let mut out = Vec::new();
-    for kind in [Kind::ManyEntries, Kind::ManyMatching, Kind::ManyMethods, Kind::ManyClasses, Kind::Straddle] {
+    for kind in [Kind::ManyEntries, Kind::ManyMatching, Kind::ManyMethods, Kind::ManyClasses, Kind::Straddle, Kind::ManyFiles, Kind::ManyOverlap] {
+        if matches!(kind, Kind::ManyFiles | Kind::ManyOverlap) {
+            // thresholds of narrow per-class counters (u8 / 512-entry fast paths)
+            for &n in &[255usize, 256, 257, 511, 512, 513, 4097] {
+                out.push(ScaleCase { kind, n, prop: prop.to_string() });
+            }
+            continue;
+        }
         for &n in ctx.tier.pick(quick, thorough) {
             out.push(ScaleCase { kind, n, prop: prop.to_string() });
         }
